@@ -2,6 +2,7 @@
 from . import csscheck
 
 THEOREMS = ["GE.C10.rpx_error_bound", "GE.C10.rpx_sign_kept"]
+THM_MODEL = ["GE.Css.block_numbers_exact", "GE.Css.convRpx_nums", "GE.Css.convCls_nums", "GE.Css.rpxLeaf_other", "GE.Css.rpxLeaf_rpx"]
 
 
 def extra_cases(rng, quick):
@@ -28,10 +29,15 @@ def run(chk):
     chk.trusted = csscheck.TRUSTED + ["Mathlib (ordered-field lemmas) in GE/Thm/C10.lean only",
                                       "IEEE-754 single precision arithmetic of Lean's Float32 and of Rust f32 (round-to-nearest) — the theorem "
                                       "takes the rounding function as a parameter with |rnd x - x| <= ε|x|"]
-    chk.assumptions = ["rpx_error_bound is a theorem about value*100/ratio computed with two correctly rounded operations over an ordered field; "
+    chk.assumptions = ["block_numbers_exact / convRpx_nums / convCls_nums: for every token tree the numeric tokens written are the input's, in order, bit for bit, "
+                       "except that exactly the dimensions with unit rpx are replaced by a vw dimension carrying rpxConvert(value, ratio) (rpxLeaf_other, rpxLeaf_rpx); "
+                       "rpx_error_bound is a theorem about value*100/ratio computed with two correctly rounded operations over an ordered field; "
                        "that the implementation performs exactly these two operations is tied by the model's executable Float32 definition "
                        "(rpxConvert) agreeing bit-for-bit with the implementation on every generated number; PARTIAL: the decimal printing of "
                        "the f32 (6 significant digits) is outside the model and judged by the oracle"]
+    failed, log = chk.prove("GE.Thm.C10Model", THM_MODEL)
+    for t in failed:
+        chk.violation("proof", f"obligation {t} no longer checks", theorem=t, log=log[-3000:])
     csscheck.run_property(chk, "C10", "GE.Thm.C10", THEOREMS, 700, 12000, extra_cases=extra_cases,
                           nontrivial=lambda o, css, res: "rpx" in css)
 
